@@ -201,10 +201,14 @@ def prop_runs(case, r):
 
     # (1) recomputed=False leaves exactly one record per accepted step and type
     clean = set()  # types for which (1) holds: only those are judged for values (duplicates would be ambiguous)
-    for type_, where in [('niter', 'start'), ('residual_post_step', 'start'), ('dt', 'start'), ('restart', 'start'), ('u', 'end'), ('work_rhs', 'end'), ('work_solve', 'end')]:
-        kw = {'level': 0} if type_ in ('work_rhs', 'work_solve', 'residual_post_step', 'dt', 'restart', 'u', 'k') else {}
+    # per-iteration records (written from post_iteration callbacks): one per accepted step and iteration performed
+    acc_start_per_iter = [a['time'] for _, _, a in acc_attempts for _ in range(int(a['iter']))]
+    for type_, where in [('niter', 'start'), ('residual_post_step', 'start'), ('dt', 'start'), ('restart', 'start'), ('u', 'end'), ('work_rhs', 'end'), ('work_solve', 'end'), ('residual_post_iteration', 'start')]:
+        kw = {'level': 0} if type_ in ('work_rhs', 'work_solve', 'residual_post_step', 'dt', 'restart', 'u', 'k') else {}  # niter and residual_post_iteration are keyed with level -1
         got = times_of(type_, **kw)
         exp = sorted(acc_start if where == 'start' else acc_end)
+        if type_ == 'residual_post_iteration':
+            exp = sorted(acc_start_per_iter)
         if got == exp:
             clean.add(type_)
         if got != exp:
@@ -267,6 +271,12 @@ def prop_runs(case, r):
             continue
         keys = [k for k, v in raw_niter if k.time == t and k.num_restarts == c]
         r.check(len(keys) >= 1, 'restart-count-key', f'block {b}: no niter record at t={blk[0]["time"]!r} with num_restarts={c} (have {[k.num_restarts for k, v in raw_niter if k.time == blk[0]["time"]]})')
+    # (3b) dropping recomputed values commutes with selecting a type: the untyped filter restricted to a type equals the typed filter
+    untyped = filter_stats(stats, recomputed=False)
+    for type_ in sorted({k.type for k in stats if k.type is not None and not str(k.type).startswith('_') and 'timing' not in str(k.type)}):
+        typed = filter_stats(stats, type=type_, recomputed=False)
+        sub = {k: v for k, v in untyped.items() if k.type == type_}
+        r.check(sub.keys() == typed.keys(), 'untyped-filter', f'filter_stats(recomputed=False) keeps {len(sub)} records of type {type_}, filter_stats(type={type_!r}, recomputed=False) keeps {len(typed)}')
     # (4) filters on real stats behave like comprehensions
     for flt in ({'type': 'niter'}, {'type': 'u', 'level': 0}, {'process': 0}, {'num_restarts': 0, 'type': 'dt'}):
         got = filter_stats(stats, **flt)
